@@ -52,6 +52,21 @@ def case_strategy(draw, tier):
             k += 1
             t["x"][i] = ((t["x"][i] * 8 + 512 + k) % 1024 - 512) / 8.0
         seen.add((t["x"][i], t["y"][i], t["z"][i]))
+    if draw(st.integers(0, 4)) == 0:
+        # a finely traced neuron: every node within half a unit of its parent (steps of 1/8), still all points distinct
+        order = models.topo_order(t["parents"])
+        seen = set()
+        for i in order:
+            p = t["parents"][i]
+            base = (0.0, 0.0, 0.0) if p == -1 else (t["x"][p], t["y"][p], t["z"][p])
+            while True:
+                stp = [draw(st.integers(-4, 4)) / 8.0 for _ in range(3)]
+                c = (base[0] + stp[0], base[1] + stp[1], base[2] + stp[2])
+                if c not in seen:
+                    break
+            seen.add(c)
+            t["x"][i], t["y"][i], t["z"][i] = c
+        t["compact"] = True
     kind = draw(st.sampled_from(["rigid", "rigid", "renumber", "scale"]))
     case = {"tree": t, "kind": kind, "steps": draw(st.integers(1, 15)),
             "fracs": draw(st.lists(st.floats(min_value=0.05, max_value=1.1, allow_nan=False), min_size=2, max_size=5))}
@@ -63,6 +78,11 @@ def case_strategy(draw, tier):
         case["axis"] = ax
         case["theta"] = draw(st.floats(min_value=-6.28, max_value=6.28, allow_nan=False))
         case["offset"] = [draw(st.integers(-800, 800)) / 8.0 for _ in range(3)]
+        if draw(st.integers(0, 3)) == 0:
+            # a pure translation far away (stack coordinates): multiples of 4096, exact for lattice points in float32
+            case["theta"] = 0.0
+            case["offset"] = [draw(st.integers(-8, 8)) * 4096.0 for _ in range(3)]
+            case["far"] = True
     elif kind == "renumber":
         case["perm"] = list(draw(st.permutations(list(range(1, n))))) if n > 1 else []
     else:
@@ -146,10 +166,32 @@ def run_case(case, ctx):
     else:
         moved = not 0.9 <= s <= 1.1
     ctx.cls("kind:" + kind, "furcation" if nfurc else "no-furcation")
+    if case.get("far"):
+        ctx.cls("translated-far-away")
+        moved = any(case["offset"])
+    if t.get("compact"):
+        ctx.cls("finely-traced")
     ctx.nontrivial(n >= 5 and nfurc >= 1 and moved)
 
     A = _measure(ctx, tree_a, t, "original")
     B = _measure(ctx, tree_b, twin, "twin")
+    if kind == "scale" and case["steps"] % 2 == 0:
+        # the library's own Scale applied to the tree that has just been measured: the derived tree's lengths are its
+        # own (s times the original's), whatever was computed on the original before
+        from swcgeom.analysis import extract_feature
+        from swcgeom.transforms import Scale
+
+        ctx.cls("scaled-by-the-library-after-measuring")
+        derived = ctx.lib("Scale", lambda: Scale(s, s, s)(tree_a))
+        got_len = float(np.asarray(ctx.lib("derived/extract_feature[length]", lambda: extract_feature(derived).get("length"))).reshape(-1)[0])
+        got_len2 = float(ctx.lib("derived/length", derived.length))
+        want_len = float(A["length"][0]) * s
+        for g in (got_len, got_len2):
+            ctx.check(abs(g - want_len) <= (1e-4 * (1.0 + abs(want_len)) + 5e-5 * n) * max(s, 1.0), "scale/length-of-the-library-scaled-tree",
+                      lambda: f"{g} vs {want_len} (s={s})")
+        bl = np.sort(np.asarray(extract_feature(derived).get("branch_length"), dtype=np.float64))
+        ctx.check(len(bl) == len(A["branch_length"]) and float(np.abs(bl - np.sort(A["branch_length"]) * s).max(initial=0.0)) <=
+                  (1e-4 * (1.0 + abs(want_len)) + 5e-5 * n) * max(s, 1.0), "scale/branch-lengths-of-the-library-scaled-tree", "")
     Pa, Pb = models.xyz64(t), models.xyz64(twin)
     scale = float(np.abs(Pa - Pa[0]).max())
     L = float(models.seg_lengths(t).sum())
@@ -322,7 +364,8 @@ def run_volume_mc(case, ctx):
 
 SUBCHECKS = [
     Sub("invariance", case_strategy, run_case, quick=3000, thorough=40000, shards_quick=8,
-        required={"kind:rigid": 150, "kind:renumber": 80, "kind:scale": 80, "furcation": 300}),
+        required={"kind:rigid": 150, "kind:renumber": 80, "kind:scale": 80, "furcation": 300, "translated-far-away": 60,
+                  "finely-traced": 100, "scaled-by-the-library-after-measuring": 40}),
     Sub("volume_mc", volume_mc_strategy, run_volume_mc, quick=32, thorough=480, shards_quick=8,
         required={"siblings-reordered": 8, "daughter-cones-overlap>1%": 8}),
 ]
